@@ -57,6 +57,8 @@ type Contract struct {
 	Decreases  string
 	LabelProps map[string][]string
 	CallCounts []CallCount
+	Captures   []*Clause // facts about captured variables, checked where the closure is created
+	DynPure    bool      // calls of function values are assumed not to touch modelled state
 }
 
 // CallCount declares a ghost counter: number of calls of Callee made by the
@@ -80,6 +82,14 @@ type SpecFunc struct {
 	Pkg    string
 }
 
+// ImmutableDecl: fields written only while their object is being constructed.
+type ImmutableDecl struct {
+	Pkg, Type string
+	Fields    []string // "*" = all
+	Line      int
+	File      string
+}
+
 type FieldInv struct {
 	Pkg, Type, Field string
 	Clause           *Clause
@@ -87,6 +97,7 @@ type FieldInv struct {
 
 type ContractDB struct {
 	FieldInvs []*FieldInv
+	Immutable []ImmutableDecl
 	Funcs  map[string]*Contract
 	Specs  map[string]*SpecFunc
 	Owned  map[string]string // struct type (pkg.Name) -> component
@@ -117,7 +128,7 @@ var clauseKeywords = map[string]bool{
 	"loop": true, "invariant": true, "trusted": true, "spec": true, "pred": true, "owned": true,
 	"on": true, "inline": true, "maypanic": true, "nonblocking": true, "callsite": true, "sendsite": true,
 	"props": true, "nosweep": true, "assume": true, "iface": true, "lemma": true, "hyp": true, "concl": true,
-	"dispatch": true, "end": true, "fieldinv": true, "callcount": true,
+	"dispatch": true, "end": true, "fieldinv": true, "callcount": true, "captures": true, "dyncalls-pure": true, "immutable": true,
 }
 
 // parseContractFile reads one contract file. pkgPath is the import path of
@@ -207,7 +218,7 @@ func (db *ContractDB) parseContractFile(path, pkgPath string) {
 			if cur != nil {
 				cur.Trusted = true
 			}
-		case "requires", "ensures", "assume":
+		case "requires", "ensures", "assume", "captures":
 			if cur == nil {
 				db.Errors = append(db.Errors, fmt.Sprintf("%s:%d: clause outside func", path, it.line))
 				continue
@@ -223,6 +234,8 @@ func (db *ContractDB) parseContractFile(path, pkgPath string) {
 				cur.Ensures = append(cur.Ensures, c)
 			case "assume":
 				cur.Assumes = append(cur.Assumes, c)
+			case "captures":
+				cur.Captures = append(cur.Captures, c)
 			}
 		case "modifies":
 			if cur != nil {
@@ -250,6 +263,10 @@ func (db *ContractDB) parseContractFile(path, pkgPath string) {
 		case "maypanic":
 			if cur != nil {
 				cur.MayPanic = true
+			}
+		case "dyncalls-pure":
+			if cur != nil {
+				cur.DynPure = true
 			}
 		case "nosweep":
 			if cur != nil {
@@ -323,6 +340,14 @@ func (db *ContractDB) parseContractFile(path, pkgPath string) {
 			}
 			sf.File, sf.Line, sf.Pkg = path, it.line, pkgPath
 			db.Specs[sf.Name] = sf
+			cur, curLoop, curLemma = nil, nil, nil
+		case "immutable":
+			f := strings.Fields(strings.ReplaceAll(it.text, ",", " "))
+			if len(f) < 2 {
+				db.Errors = append(db.Errors, fmt.Sprintf("%s:%d: immutable needs 'Type field...'", path, it.line))
+				continue
+			}
+			db.Immutable = append(db.Immutable, ImmutableDecl{Pkg: pkgPath, Type: f[0], Fields: f[1:], Line: it.line, File: path})
 			cur, curLoop, curLemma = nil, nil, nil
 		case "fieldinv":
 			j := strings.Index(it.text, ":")
